@@ -481,6 +481,18 @@ pub fn explain(case: &SynthCase, gate: &GateModule, mm: Mismatch) -> Outcome {
             fail_payload(&case.text, case, &case.stim, json!(null)),
         );
     }
+    // hand-templated shape: small by construction, the label names the family
+    if let Some((label, known)) = &case.tpl {
+        let sig = match known {
+            Some(k) => k.to_string(),
+            None => format!("unclassified(template:{label})"),
+        };
+        return Outcome::fail(
+            sig,
+            format!("{head}\n{}\n-- gate ir --\n{}", case.text, if gate.cells.len() < 200 { format!("{gate}") } else { format!("({} cells)", gate.cells.len()) }),
+            fail_payload(&case.text, case, &case.stim, json!(null)),
+        );
+    }
     // memory-shaped case: minimise the specification, then ask the same text without inference
     let Some((spec0, streams0)) = &case.ram_spec else {
         return Outcome::fail("unclassified:recorded", format!("{head}\n{}", case.text), fail_payload(&case.text, case, &case.stim, json!(null)));
@@ -624,6 +636,7 @@ pub fn case_from_payload(p: &Value) -> SynthCase {
         text: p["veryl"].as_str().unwrap_or("").to_string(),
         design: None,
         ram_spec: None,
+        tpl: None,
         stim: stim_from(&p["stimulus"]),
         clock,
         reset,
